@@ -10,6 +10,10 @@ downstream statement is about one well-defined report.  Real-valued statements a
 import Model.Stats
 import Proofs.Stats
 import Proofs.StatsTables
+import Model.StatsReports
+import Proofs.StatsReports
+import Model.StatsSources
+import Proofs.StatsSources
 
 open Stats
 
@@ -326,6 +330,128 @@ theorem compiled_labels_can_collide :
   · decide
   · intro h; cases h
 
+/-! ### text reports: every printed figure is the quantity its label (or position) names -/
+
+/-- **`short_summary`**: when the text is produced, every line holds the defining formula of
+the statistic its words name (null-model block only with a null likelihood). -/
+theorem report_short_summary {α : Type} [NumOps α] (raw : Raw α) (items : List (GLabel × GVal α))
+    (h : shortSummary raw = .ok items) (l : GLabel) (v : GVal α) (hm : (l, v) ∈ items) :
+    v = raw.meaning l := by
+  rw [mkTxtT_ok _ _ h] at hm
+  exact short_summary_meaning raw l v hm
+
+/-- **`__str__`, statistics lines** (null block, init block, gradient norm when present). -/
+theorem report_str_statistics {α : Type} [NumOps α] (raw : Raw α) (items : List (GLabel × GVal α))
+    (h : strStats raw = .ok items) (l : GLabel) (v : GVal α) (hm : (l, v) ∈ items) :
+    v = raw.meaning l := by
+  rw [mkTxtT_ok _ _ h] at hm
+  exact str_items_meaning raw l v hm
+
+/-- **`print_general_statistics`** prints exactly the dictionary of `get_general_statistics`,
+hence (`table_labels_general`) the defining formula under every label. -/
+theorem report_print_general {α : Type} [NumOps α] (raw : Raw α) (items : List (GLabel × GVal α))
+    (h : printGeneral raw = .ok items) :
+    items = generalStatistics raw ∧ ∀ l v, (l, v) ∈ items → v = raw.meaning l := by
+  have e := mkTxt_ok _ _ h
+  subst e
+  exact ⟨rfl, fun l v hm => general_meaning raw l v hm⟩
+
+/-- … and is refused (`TypeError` of `str.format`) exactly when some figure is `None` under a
+non-empty format specification; in particular without an initial log likelihood. -/
+theorem report_print_general_refused {α : Type} [NumOps α] (raw : Raw α) :
+    (printGeneral raw = .error ↔
+      ∃ p ∈ generalStatistics raw, p.2.formattable p.1.format = false) ∧
+    (raw.initLL = none → printGeneral raw = .error) := by
+  refine ⟨mkTxt_error_iff _, fun h => (mkTxt_error_iff _).mpr ⟨(.initLL, .onum none), ?_, rfl⟩⟩
+  simp [generalStatistics, h]
+
+/-- **`Beta.__str__`** (the parameter lines of `__str__`): value, then (se, t, p) of the
+classical, the robust and — with a bootstrap sample — the bootstrap family, each figure being
+that family's statistic. -/
+theorem report_str_parameters {α : Type} [NumOps α] (r : Rep α) (k : Nat) (q : ParamQty) (v : α)
+    (h : (q, v) ∈ betaLine r k) : v = r.qty k q :=
+  betaLine_meaning r k q v h
+
+/-- **pair lines of `__str__`**: the eight places are covariance, correlation, pair test and
+p-value of the classical and then of the robust family (with or without bootstrap block). -/
+theorem report_str_pairs {α : Type} [NumOps α] (r : Rep α) (i j : Nat) :
+    strPairLine r i j = strPairMeaning.map fun p => r.pairQty p.1 p.2 i j :=
+  strPairLine_eq r i j
+
+/-- **HTML / LaTeX statistics rows**: the HTML report prints the dictionary entries whose value
+is not `None` (all of them formattable), each the defining formula of its label. -/
+theorem report_html_statistics {α : Type} [NumOps α] (raw : Raw α) (l : GLabel) (v : GVal α) :
+    ((l, v) ∈ htmlGeneral raw ↔ (l, v) ∈ generalStatistics raw ∧ v.formattable .g7 = true) ∧
+    ((l, v) ∈ htmlGeneral raw → v = raw.meaning l) := by
+  refine ⟨htmlGeneral_mem raw (l, v), fun h => ?_⟩
+  exact general_meaning raw l v ((htmlGeneral_mem raw (l, v)).mp h).1
+
+/-- **HTML correlation rows name their two parameters** — proved for names without `-` (the
+code recovers them by `name.split('-')`).  Without the guard the statement is false of the
+code: `html_pair_names_can_mislabel`. -/
+theorem report_html_pair_names_partial {α : Type} [NumOps α] (r : Rep α) (i j : Nat)
+    (hi : '-' ∉ r.names.getD i []) (hj : '-' ∉ r.names.getD j []) :
+    htmlPairNames r i j = (r.names.getD i [], r.names.getD j []) :=
+  htmlPairNames_nodash r i j hi hj
+
+/-- witness: the pair (`a-b`, `c`) is printed as the pair (`a`, `b`) -/
+theorem html_pair_names_can_mislabel :
+    (seg0 ("a-b".toList ++ ['-'] ++ "c".toList), seg1 ("a-b".toList ++ ['-'] ++ "c".toList)) =
+      ("a".toList, "b".toList) := by
+  decide
+
+/-- **F12 coefficient lines**: constrained flag = the bound is active, value = the estimate,
+standard error = that of the family selected by `robust_std_err`. -/
+theorem report_f12_coefficients (r : Rep ℝ) (robustStdErr : Bool) (k : Nat) :
+    f12Coef r robustStdErr k =
+      (r.active.getD k false, vget r.beta k,
+       r.stat (if robustStdErr then .robust else .classical) .se k) :=
+  f12Coef_real r robustStdErr k
+
+/-- **F12 correlations**: the correlation of the selected family, pairs in the order of the
+second-order table. -/
+theorem report_f12_correlations {α : Type} [NumOps α] (r : Rep α) (robustStdErr : Bool) :
+    f12Corr r robustStdErr = (pairs r.K).map fun p =>
+      r.pairQty (if robustStdErr then .robust else .classical) .corr p.1 p.2 :=
+  f12Corr_eq r robustStdErr
+
+/-- **`get_correlation_results(subset)`**: the rows are rows of the full table (so every cell
+is the quantity its label names, `table_labels_correlation`), exactly those of the pairs whose two
+names both belong to the subset; names of the subset that are no parameters change nothing. -/
+theorem table_subset_correlation {α : Type} [NumOps α] (r : Rep α) (subset : List (List Char)) :
+    (∀ row, row ∈ corrTableSubset r subset → row ∈ corrTable r) ∧
+    (∀ p, p ∈ corrSubsetPairs r subset ↔
+      p ∈ pairs r.K ∧ r.names.getD p.1 [] ∈ subset ∧ r.names.getD p.2 [] ∈ subset) :=
+  ⟨corrTableSubset_sub r subset, corrSubsetPairs_iff r subset⟩
+
+/-- **Bootstrap draws by name** (`get_betas_for_sensitivity_analysis(…, use_bootstrap=True)`):
+for distinct parameter names, every dictionary maps a requested name to that parameter's own
+column of the replication — whatever the order of the request. -/
+theorem draws_by_name {α : Type} [NumOps α] (names : List (List Char)) (hnd : names.Nodup) (ks : List Nat)
+    (hks : ∀ k ∈ ks, k < names.length) (S : Mat α) :
+    sensDraws names (ks.map fun k => names.getD k []) S =
+      some (S.map fun row => ks.map fun k => (names.getD k [], vget row k)) :=
+  sensDraws_by_name names hnd ks hks S
+
+/-- **Label → attribute → formula**: the figure under a label of `get_general_statistics` is what
+was stored in the attribute that label reads (the label → attribute → format table is regenerated
+from live objects, `Generated/StatsLabels.lean`), and what `_calculate_stats` / the constructor
+stored there is the label's defining formula applied to the raw outcome. -/
+theorem general_sources {α : Type} [NumOps α] (raw : Raw α) (l : GLabel) (v : GVal α)
+    (h : (l, v) ∈ generalStatistics raw) :
+    v = attrValue raw l.source ∧ attrValue raw l.source = raw.meaning l :=
+  ⟨general_source raw l v h, attrValue_meaning raw l⟩
+
+/-- … the same for the lines of `short_summary` and `__str__`, whose labels are among the
+lists the generated tables enumerate. -/
+theorem text_sources {α : Type} [NumOps α] (raw : Raw α) (l : GLabel) (v : GVal α) :
+    ((l, v) ∈ shortSummaryItems raw → v = attrValue raw l.source ∧ l ∈ shortLabels) ∧
+    ((l, v) ∈ strItems raw → v = attrValue raw l.source ∧ l ∈ strLabels) :=
+  ⟨short_source raw l v, str_source raw l v⟩
+
+/-- the words `short_summary` / `__str__` use are pairwise different -/
+theorem text_labels_distinct : (GLabel.all.map GLabel.textLabel).Nodup := by decide
+
 /-! ### likelihood-ratio test -/
 
 /-- **Refusal cases**: the test is refused exactly when the model with the strictly higher
@@ -361,6 +487,18 @@ theorem lr_order_matters_on_ties :
   unfold lrRoles
   simp
 
+/-- **The results-object entry point** `self.likelihood_ratio_test(other)`: when performed, the
+statistic is −2(L_r − L_u) of the two objects' final log likelihoods — for likelihoods of any
+magnitude and any difference — the degrees of freedom the difference of their numbers of
+parameters, and the roles are the two objects. -/
+theorem lr_on_results (self other : Raw ℝ) (stat : ℝ) (df : Int) (llU llR : ℝ) (kU kR : Int)
+    (h : lrOnResults self other = .ok stat df llU llR kU kR) :
+    stat = -2 * (llR - llU) ∧ df = kU - kR ∧ 0 ≤ df ∧ 0 ≤ stat ∧
+    ((llU = other.logLike ∧ kU = other.K ∧ llR = self.logLike ∧ kR = self.K) ∨
+     (llU = self.logLike ∧ kU = self.K ∧ llR = other.logLike ∧ kR = other.K)) := by
+  obtain ⟨h1, h2, h3, _, h5, h6⟩ := lrRoles_ok _ _ _ _ stat df llU llR kU kR h
+  exact ⟨h1, h2, h3, h5, by simpa using h6⟩
+
 /-! ### non-vacuity -/
 
 /-- a regular and a singular instance of the relation -/
@@ -389,5 +527,20 @@ example : (paramColumns true false (some 7)).length = 11 := by decide
 example : lrRoles (-100 : ℝ) 5 (-110) 3 = .ok 20 2 (-100) (-110) 5 3 := by
   unfold lrRoles
   norm_num
+
+/-- the text reports are inhabited: a line of `short_summary`, and a performed test on two
+results objects -/
+example {α : Type} [NumOps α] (raw : Raw α) : (GLabel.finalLL, GVal.num raw.logLike) ∈ shortSummaryItems raw := by
+  simp [shortSummaryItems]
+
+example : (paramRow ({ K := 1, names := [['b']], beta := [2], active := [true], cls := [[1]], rob := [[4]], boot := none } : Rep ℝ) false 0).lookup PLabel.activeBound = some 1 := by
+  simp (config := {decide := true}) [paramRow, Rep.anyActive, List.lookup, plabel_beq]
+
+/-- the hypotheses of `draws_by_name` hold for a request in reverse order of two distinct names -/
+example : ([['b'], ['a']] : List (List Char)).Nodup ∧ ∀ k ∈ [1, 0], k < ([['b'], ['a']] : List (List Char)).length := by decide
+
+/-- `general_sources` is inhabited: the entry of the final log likelihood -/
+example {α : Type} [NumOps α] (raw : Raw α) : (GLabel.finalLL, GVal.num raw.logLike) ∈ generalStatistics raw := by
+  simp [generalStatistics]
 
 end C08
